@@ -241,10 +241,13 @@ def eval_case(case: dict) -> dict:
                 if site['site'] == 'port-type':
                     port = ent2[1].ports[site['port_index']]
                     if not port.injected:
-                        acc = [a for a in shellbuild.accessors_in_header(hh)
-                               if a['cap'] == shellbuild.cap(port.name)]
+                        all_acc = shellbuild.accessors_in_header(hh)
+                        acc = [a for a in all_acc if a['cap'] == shellbuild.cap(port.name)]
                         want_t = cxxgen.cfqn(target)
-                        if not acc or acc[0]['itf'] != want_t:
+                        if not all_acc:
+                            # header layout not recognised: left to the compiled sample
+                            cnt['textual_accessor_extraction_failed'] = 1
+                        elif not acc or acc[0]['itf'] != want_t:
                             viol('emitted-port-type-is-another-declaration',
                                  {'want': want_t, 'got': acc[0]['itf'] if acc else None}, sub)
                 elif site['site'] == 'formal-type':
@@ -266,10 +269,16 @@ def eval_case(case: dict) -> dict:
                         cnt['formal_sites_without_rerouting_lambda'] = \
                             cnt.get('formal_sites_without_rerouting_lambda', 0) + 1
                 else:
-                    want_cmp = f'r == {cxxgen.cfqn(target)}::{fields[0]}'
+                    want_cmp = f'{cxxgen.cfqn(target)}::{fields[0]}'
                     if want_cmp not in cc:
-                        viol('emitted-claim-comparison-uses-another-enum',
-                             {'want': want_cmp}, sub)
+                        others = [cxxgen.cfqn(f) for k, f, _o in decls2
+                                  if k == 'enums' and '.'.join(f) != target
+                                  and cxxgen.cfqn(f) + '::' in cc]
+                        if others:
+                            viol('emitted-claim-comparison-uses-another-enum',
+                                 {'want': want_cmp, 'found': others[:3]}, sub)
+                        else:
+                            cnt['textual_claim_comparison_not_recognised'] = 1
                 # (3) compile a sample against distinct types
                 if case.get('compile') and compiled < 2 and rng.random() < 0.3:
                     compiled += 1
